@@ -2,17 +2,82 @@ from . import stage
 
 FLAVOURS = ["san"]
 
+PAIRS = ["vtmf/key-nizk", "vtmf/key-interactive", "vtmf/key-publiccoin", "vtmf/cp-plain", "vtmf/cp-table",
+         "vtmf/or-first", "vtmf/or-second", "vtmf/mask", "vtmf/remask", "vtmf/decrypt",
+         "tmcg/maskcard-vtmf", "tmcg/cardsecret-vtmf", "tmcg/stackeq-vtmf", "tmcg/stackeq-vtmf-cyclic",
+         "tmcg/groth", "tmcg/groth-noninteractive", "tmcg/hoogh", "tmcg/hoogh-noninteractive",
+         "groth/vsshe-interactive", "groth/vsshe-publiccoin", "groth/vsshe-noninteractive",
+         "groth/skc-interactive", "groth/skc-publiccoin", "groth/skc-noninteractive",
+         "hoogh/vrhe-interactive", "hoogh/vrhe-publiccoin", "hoogh/vrhe-noninteractive",
+         "hoogh/pubrotzk-interactive", "hoogh/pubrotzk-publiccoin", "hoogh/pubrotzk-noninteractive",
+         "pedersen/commit", "pedersen/trapdoor-commit", "edcf/flip-twoparty",
+         "tmcg/maskcard-qr", "tmcg/cardsecret-qr", "tmcg/stackeq-qr", "tmcg/stackeq-qr-cyclic",
+         "rabin/sign", "rabin/key-nizk"]
+NO_PUB = {"vtmf/key-nizk", "edcf/flip-twoparty", "rabin/sign", "rabin/key-nizk"}
+QUICK_DLOG = ["+1", "other", "+q", "+p", "nonmember", "delete"]
+FULL_DLOG = QUICK_DLOG + ["neg", "zero", "one", "p-1", "p", "q", "oversized", "truncate", "swap", "empty"]
+QR_MUT = ["2v", "zero", "one", "truncate"]
+ALT = ["group:other", "group:g^2", "key:extra-share", "com:other-seed", "key:other-rabin"]
+
 
 def prebuild(repo):
     stage("w_c05", repo)
 
 
 def spec(tier, seed, repo):
+    quick = tier == "quick"
+    floors = {}
+    for p in PAIRS:
+        floors["lines/" + p] = 1          # every pair: an accepted honest run whose prover lines were swept
+        floors["runs/" + p] = 6
+        if p not in NO_PUB:
+            floors["pub_inputs/" + p] = 1
+        if p != "rabin/key-nizk":
+            floors["altcov/" + p + "/" + ("key:other-rabin" if (p.endswith("-qr") or "-qr-" in p or p.startswith("rabin/")) else "group:other")] = 1
+    for m in (QUICK_DLOG if quick else FULL_DLOG):
+        floors["mut/" + m] = 150 if quick else 1000
+    for m in QR_MUT:
+        floors["mut/" + m] = 60
+    for a in ALT:
+        floors["alt/" + a] = 4
+    floors.update({
+        "judged_line_runs": 4000 if quick else 40000,
+        "judged_pub_runs": 700 if quick else 5000,
+        "judged_alt_runs": 100,
+        "replay_selfchecks": 40,
+        "pubmut/elem/+1": 150, "pubmut/elem/other": 150, "pubmut/exp/+1": 15, "pubmut/qr/+1": 30, "pubmut/qr/2v": 30,
+        "role/elem": 500, "role/scalar": 500, "role/resid": 200, "role/bit": 50,
+        "role/crs.r": 20, "role/sts.count": 20,
+    })
+    if not quick:
+        floors.update({"equiv_executed/same-square/resid/neg": 50, "equiv_executed/same-residue-mod-m/resid/+m": 50,
+                       "equiv_executed/text-after-last-delimiter/struct:sts/append-after-last-delimiter": 5})
     return dict(
-        stages=[stage("w_c05", repo, nshards=16, case_timeout=900 if tier == "quick" else 3600,
-                      total_timeout=3 * 3600)],
+        stages=[stage("w_c05", repo, nshards=16, case_timeout=1200 if quick else 7200,
+                      total_timeout=4 * 3600)],
         level="fault_enumeration",
-        rule="tbd",
-        assumptions=[],
-        floors={},
+        rule="one case = (parameter world, prover/verifier pair, size n, block of targets).  An honest run is recorded and "
+             "must be ACCEPTED (otherwise the case is trivial and reported); then the verifier is re-run once per "
+             "(target, mutation): non-interactive proofs on the edited text, interactive ones with a man in the middle "
+             "editing prover line k in flight while the real prover keeps answering; public inputs are altered in the "
+             "verifier's view only (recorded prover side replayed; cut-and-choose verifiers with coins scripted to all-0 "
+             "and all-1, an input is judged in the run whose challenge selects it); group / common key / commitment "
+             "generators through self-consistent alternative verifier objects.  evaluations = verifier runs; a case is "
+             "non-trivial when at least one judged run was executed; distinct = (target, mutation) pairs of the case. "
+             "A mutation whose text equals the original is skipped and counted (skipped_equal_text).",
+        assumptions=[
+            "catalogue (dlog): +1, other member / other residue, +q, +p, (-1)*v mod p, delete [quick]; thorough adds -v, 0, 1, "
+            "p-1, p, q, v+2^4096, drop last character, swap with next line, empty line; v-q is not in the catalogue",
+            "catalogue (QR): +1 (flip for parity bits), 2v mod m, 0, 1, delete, truncate, swap, empty; -v, m-v, v+m, m are "
+            "executed and recorded (equiv_executed/equiv_accepted), not judged: same square / same residue",
+            "public inputs: v+p (elements) and v+q (exponents) are executed and recorded, not judged: the same element / "
+            "residue for a verifier computing mod p / mod q, and a public input is not a transmitted value",
+            "text after the last delimiter of a structured record (sts^..^x, crs|r|x) is an equivalent representation",
+            "acceptance probabilities inherent to the protocols (2^-l_e challenges) are ignored; cut-and-choose public "
+            "inputs are judged only in rounds whose challenge selects them (coins scripted)",
+            "quick: n=3; sized protocols in one parameter world (rotating with seed), the others in all four; structured "
+            "fields of the cut-and-choose stack secrets and of the Rabin key text are sampled (every third (field, "
+            "mutation) pair); thorough: n in {2,3,8}, full catalogue, all worlds + sampled default sizes",
+        ],
+        floors=floors,
     )
